@@ -63,8 +63,9 @@ class Trace:
 
 
 class Prod(event.Producer):
-    def __init__(self, name, tr, fail_phase=None, init_delay=0.0, main_events=None, source=None):
+    def __init__(self, name, tr, fail_phase=None, init_delay=0.0, main_events=None, source=None, fin_delay=0.0):
         self.name, self.tr, self.fail_phase, self.init_delay = name, tr, fail_phase, init_delay
+        self.fin_delay = fin_delay
         self.main_events = main_events or []      # [(delay_s, event)] pushed by main()
         self.source = source
 
@@ -93,6 +94,13 @@ class Prod(event.Producer):
 
     async def finalize(self):
         self.tr.add("producer", self.name, "finalize")
+        if self.fin_delay:
+            try:
+                await asyncio.sleep(self.fin_delay)
+            except asyncio.CancelledError:
+                self.tr.add("producer", self.name, "finalize-cancelled")
+                raise
+        self.tr.add("producer", self.name, "finalize-end")
         if self.fail_phase == "finalize":
             raise ProducerError(self.name + " finalize")
 
@@ -118,7 +126,7 @@ def vrun(ctx, main_coro_fn):
 
 # ====================================================================================== C15
 def realtime_timing(ctx, nev_a=2, nev_b=1, njobs=1, max_mc=2, idle=True, window_ms=(-50, 100), horizon=0.45,
-                    long_last_job=False):
+                    long_last_job=False, job_zones=False):
     lo, hi = START + ms(window_ms[0]), START + ms(window_ms[1])
     mc = ctx.int("max_concurrent", 1, max_mc)
     whens_a = [ctx.dt("when_a%d" % i, lo, hi) for i in range(nev_a)]
@@ -126,6 +134,9 @@ def realtime_timing(ctx, nev_a=2, nev_b=1, njobs=1, max_mc=2, idle=True, window_
     whens_j = [ctx.dt("when_job%d" % i, lo, hi) for i in range(njobs)]
     dur = [0.0, 0.03][ctx.choice("handler_duration", 2)]
     out = {}
+    # the caller may name a job's instant in any time zone (same instant, another tzinfo label)
+    zone_h = [0, 2, -3][ctx.choice("job_time_zone", 3)] if job_zones else 0
+    zone = datetime.timezone(datetime.timedelta(hours=zone_h))
 
     async def body(loop):
         tr = Trace(loop)
@@ -167,7 +178,7 @@ def realtime_timing(ctx, nev_a=2, nev_b=1, njobs=1, max_mc=2, idle=True, window_
                     finally:
                         busy["n"] -= 1
                 return job
-            d.schedule(w, mkjob(i))
+            d.schedule(w.astimezone(zone) if zone_h else w, mkjob(i))
         idle_runs = dict(n=0)
         if idle:
             async def on_idle():
@@ -228,7 +239,8 @@ def realtime_timing(ctx, nev_a=2, nev_b=1, njobs=1, max_mc=2, idle=True, window_
 
 
 # ====================================================================================== C14
-ENDINGS = ["exhausted_or_idle_stop", "stop_from_handler", "handler_error_stops", "external_cancel", "external_stop"]
+ENDINGS = ["exhausted_or_idle_stop", "stop_from_handler", "handler_error_stops", "external_cancel", "external_stop",
+           "double_stop"]
 
 
 def lifecycle(ctx, kind="backtesting", max_mc=3, nprod=2):
@@ -251,7 +263,10 @@ def lifecycle(ctx, kind="backtesting", max_mc=3, nprod=2):
         prods, srcs = [], []
         nev = 3
         for p in range(nprod):
-            pr = Prod("p%d" % p, tr, fail_phase=(fail_phase if p == fail_idx else None), init_delay=0.01 * p)
+            # (with the stop()-from-outside endings the producers take 20 ms to finalise, so that a second stop() can
+            # arrive while they do)
+            pr = Prod("p%d" % p, tr, fail_phase=(fail_phase if p == fail_idx else None), init_delay=0.01 * p,
+                      fin_delay=0.02 if ending in ("external_stop", "double_stop") else 0.0)
             evs = [Ev(START + ms(10 * (k + 1)) if kind == "realtime" else START + datetime.timedelta(days=k + 1),
                       "p%de%d" % (p, k)) for k in range(nev)]
             src = event.FifoQueueEventSource(producer=pr, events=evs)
@@ -313,12 +328,17 @@ def lifecycle(ctx, kind="backtesting", max_mc=3, nprod=2):
             out["finished_before_cancel"] = t.done()
             out.setdefault("t_end_requested", loop.time())
             t.cancel()
-        elif ending == "external_stop":
+        elif ending in ("external_stop", "double_stop"):
             # stop() from another task: at 5 ms the second producer is still inside initialize()
             await asyncio.sleep([0.005, 0.015, 0.05][ctx.choice("stop_at", 3)])
             if not t.done():
                 out.setdefault("t_end_requested", loop.time())
             d.stop()
+            if ending == "double_stop":
+                # a second stop() (a second Ctrl-C) 10 ms later: the producers are being finalised
+                await asyncio.sleep(0.01)
+                out["second_stop_while_running"] = not t.done()
+                d.stop()
         t0 = loop.time()
         try:
             await asyncio.wait_for(asyncio.shield(t), timeout=3000)
@@ -350,6 +370,12 @@ def lifecycle(ctx, kind="backtesting", max_mc=3, nprod=2):
     for n in names:
         ctx.prove(len(seq(n, "finalize")) == 1, "C14 every producer is finalised exactly once", info=(n, fail_phase,
                                                                                                       ending))
+        if ending != "external_cancel":
+            # (only the caller's own cancellation may interrupt a finalizer)
+            ctx.prove(len(seq(n, "finalize-end")) == 1 and not seq(n, "finalize-cancelled"),
+                      "C14 every producer's finalisation runs to completion", info=(n, fail_phase, ending))
+    if out.get("second_stop_while_running"):
+        ctx.cover("stop() was called again while the run was ending")
     # ---- outcome of run()
     if ending == "external_cancel" and out.get("finished_before_cancel"):
         ctx.prove(res in ("returned", "raised"), "C14 run() outcome is unaffected by a cancellation after it ended")
@@ -361,7 +387,7 @@ def lifecycle(ctx, kind="backtesting", max_mc=3, nprod=2):
     elif fail_phase in ("initialize", "main"):
         ok = (res == "raised" and isinstance(exc, ProducerError)) or \
              (fail_phase == "main" and res == "returned") or \
-             (ending == "external_stop" and res == "returned")  # the run may legitimately end before the failure
+             (ending in ("external_stop", "double_stop") and res == "returned")  # the run may end before the failure
         ctx.prove(ok, "C14 a failing producer makes run() raise that producer's error, never an internal error",
                   info=repr(out["result"]))
     else:
